@@ -103,6 +103,7 @@ class Perturber:
         self.codes = set()
         self.last_event = time.monotonic()
         self.active = False
+        self.line_seen = {}          # (code name, line) -> monotonic time last executed
 
     def _decide(self, code, sync=False):
         with self.lock:
@@ -132,7 +133,12 @@ class Perturber:
                 return self.rng.random() * self.max_sleep
         return 0
 
+    def recent_lines(self, window):
+        now = time.monotonic()
+        return sorted(k for k, t in list(self.line_seen.items()) if now - t <= window)
+
     def _line(self, code, line):
+        self.line_seen[(code.co_name, line)] = time.monotonic()
         d = self._decide(code)
         if d:
             time.sleep(d)
@@ -198,7 +204,7 @@ def stack_signature(skip=()):
     return out
 
 
-def wait_or_deadlock(thread, progress, hard_timeout=90, quiet=2.0):
+def wait_or_deadlock(thread, progress, hard_timeout=90, quiet=2.0, work=None, recent_lines=None, spin=8.0):
     """Join `thread`.  progress() -> a value that changes whenever anything moves (monitored events,
     backend calls).  Returns ('done', None) | ('deadlock', stacks) | ('watchdog', stacks).
     Deadlock is a LOGICAL condition: no progress for `quiet` seconds and two identical stack samples of
@@ -206,11 +212,22 @@ def wait_or_deadlock(thread, progress, hard_timeout=90, quiet=2.0):
     t0 = time.monotonic()
     me = threading.get_ident()
     last, last_change = progress(), time.monotonic()
+    last_work, last_work_change = (work() if work else None), time.monotonic()
     while True:
         thread.join(0.25)
         if not thread.is_alive():
             return 'done', None
         now = time.monotonic()
+        if work is not None:
+            w = work()
+            if w != last_work:
+                last_work, last_work_change = w, now
+            elif now - last_work_change >= spin and recent_lines is not None:
+                # LIVELOCK: code keeps executing, but no backend call has started or ended for `spin` seconds and
+                # everything executed lately is a handful of lines (a polling loop that can never be satisfied)
+                lines = recent_lines(spin / 2)
+                if len(lines) <= 12:
+                    return 'livelock', {'spinning_on': [f'{n}:{ln}' for n, ln in lines], **stack_signature(skip=(me,))}
         cur = progress()
         if cur != last:
             last, last_change = cur, now
